@@ -12,5 +12,6 @@ func TestCheck(t *testing.T) {
 	rec = e.Rec
 
 	rt.Rapid(e, "chains", 500_000, 4_000_000, genCase, Run)
+	rt.Rapid(e, "stale-capacity", 150_000, 1_500_000, genStale, RunStale)
 	rt.Enum(e, "catalogue-pairs", func(yield func(Case) bool) { enumCatalogue(e, yield) }, Run)
 }
